@@ -74,19 +74,38 @@ DirUseDocs ==
             WithDirs(ScalarD("Date"), u), WithDirs(UnionD("U", <<"Query">>), u), WithDirs(InterfaceD("N", <<FieldD("name", S, <<>>)>>), u),
             WithDirs(InputD("In", <<ArgD("a", S)>>), u) >> : u \in UseVariants }
 
+\* directive arguments of input object type: the value of a use (and a default) is completed with the input fields' defaults,
+\* also with those a LATER document adds to the input type.  Each case is a history of two documents.
+DRange(fs) == InputD("Range", fs)
+DirInputHist ==
+  { << << DirectiveD("limit", <<ArgD("by", Named("Range")), ArgDD("dflt", Named("Range"), V("obj", [min |-> IntV(0)]))>>, <<"OBJECT", "ENUM_VALUE", "SCALAR">>),
+          DRange(<<ArgD("min", I)>>),
+          WithDirs(ObjectD("Query", <<>>, <<FieldD("f", S, <<>>), FieldD("e", Named("E"), <<>>)>>), u),
+          EnumD("E", <<[EV("P") EXCEPT !.dirs = u], EV("Q")>>) >>,
+       << Ext(DRange(x)) >> >> :
+      u \in { <<DU("limit", <<AV("by", V("obj", [min |-> IntV(1)]))>>)>>, <<DU("limit", <<>>)>>, <<DU("limit", <<AV("by", V("obj", [x \in {} |-> 0]))>>)>> },
+      x \in { <<ArgDD("max", I, IntV(10))>>, <<ArgD("max", I)>>, <<ArgDD("tags", ListOf(S), ListV(<<StrV("t")>>)), ArgDD("max", I, IntV(10))>> } }
+
 VARIABLES phase, cs
 pvars == <<phase, cs>>
-PInit == phase = "kind" /\ cs \in {[kind |-> k] : k \in {"desc", "default", "numeric", "bases", "diruses"}}
+PInit == phase = "kind" /\ cs \in {[kind |-> k] : k \in {"desc", "default", "numeric", "bases", "diruses", "dirinput"}}
 PNext == /\ phase = "kind" /\ phase' = "case"
          /\ cs' \in CASE cs.kind = "desc" -> {[kind |-> "desc", doc |-> v] : v \in UNION {Variants(x, "desc") : x \in DescStrings}}
                       [] cs.kind = "default" -> {[kind |-> "default", doc |-> v] : v \in UNION {Variants(x, "default") : x \in AnyStrings}}
                       [] cs.kind = "numeric" -> {[kind |-> "numeric", doc |-> d] : d \in DefaultDocs}
                       [] cs.kind = "diruses" -> {[kind |-> "diruses", doc |-> d] : d \in DirUseDocs}
+                      [] cs.kind = "dirinput" -> {[kind |-> "dirinput", doc |-> h[1], doc2 |-> h[2]] : h \in DirInputHist}
                       [] cs.kind = "bases" -> {[kind |-> "bases", doc |-> Bases[b]] : b \in DOMAIN Bases}
 PSpec == PInit /\ [][PNext]_pvars
 
 Result == LoadResult(EmptySchema, cs.doc, {})
+Result2 == IF "doc2" \in DOMAIN cs THEN LoadResult(Result.s, cs.doc2, {}) ELSE Result
 \* every enumerated document is a valid schema: the round trip is only asked of accepted schemas
-AllAccepted == phase = "case" => Result.ok
-Emit == phase = "case" => PrintT("@@VEC " \o ToJson([hist |-> <<[doc |-> cs.doc, ok |-> Result.ok, why |-> Result.why, off |-> Result.off, canon |-> Canon(Result.s)]>>, tag |-> cs.kind]))
+AllAccepted == phase = "case" => Result.ok /\ Result2.ok
+Step1 == [doc |-> cs.doc, ok |-> Result.ok, why |-> Result.why, off |-> Result.off, canon |-> Canon(Result.s)]
+Emit == phase = "case" =>
+  PrintT("@@VEC " \o ToJson([hist |-> IF "doc2" \in DOMAIN cs
+                                       THEN <<Step1, [doc |-> cs.doc2, ok |-> Result2.ok, why |-> Result2.why, off |-> Result2.off, canon |-> Canon(Result2.s)]>>
+                                       ELSE <<Step1>>,
+                              tag |-> cs.kind]))
 =============================================================================
